@@ -29,6 +29,14 @@ DEFAULT_KINDS = ('BOOLEAN', 'INTEGER', 'ENUMERATED', 'OCTET STRING', 'BIT STRING
 ALL_KINDS = DEFAULT_KINDS
 
 
+def looks_numeric(s):
+    try:
+        float(s)
+        return True
+    except ValueError:
+        return s.strip() == '' or s != s.strip()
+
+
 class Opts(object):
     def __init__(self, **kw):
         self.kinds = set(DEFAULT_KINDS)
@@ -53,7 +61,13 @@ class Opts(object):
         self.set_needs_tags = True      # SET members always carry distinct tags (AUTOMATIC or explicit)
         self.named_bits = True
         self.int_max_bits = 70
+        self.xml_safe = False           # strings restricted to characters XML 1.0 can carry unchanged
+        # names of known-finding regions the generator must stay out of; the two defaults are
+        # parser/compile-layer defects that hit every codec (recorded in known_findings/C19.json)
+        self.avoid = set()
+        self.base_avoid = {'numeric_string_default', 'group_default_strings', 'ref_bool_default'}
         self.__dict__.update(kw)
+        self.avoid = set(self.avoid) | set(self.base_avoid)
 
 
 # ---------------------------------------------------------------------------
@@ -90,6 +104,8 @@ class Gen(object):
         elif p < .45 and self.o.unbounded_int:
             hi = None
         ext = self.o.ext_constraints and r.random() < .25
+        if ext and (lo is None or hi is None) and 'int_ext_open' in self.o.avoid:
+            ext = False
         return {'lo': lo, 'hi': hi, 'ext': ext}
 
     def size_constraint(self, maxn=None, small=True):
@@ -169,6 +185,8 @@ class Gen(object):
                 if sk == 'NumericString':
                     pool = list(' 0123456789')
                 n = r.choice([1, 2, 3, 4, 5, 8, 9, 16, 17])
+                if n == 1 and 'alpha1' in self.o.avoid:
+                    n = 2
                 t['alpha'] = sorted(r.sample(pool, min(n, len(pool))))
             return t
         if k in ('SEQUENCE', 'SET'):
@@ -179,7 +197,12 @@ class Gen(object):
                 ext = []
                 for _ in range(r.randrange(0, 3)):
                     if o.groups and k == 'SEQUENCE' and r.random() < .3:
-                        ext.append({'group': [self.gen_member(depth, 'g') for _ in range(r.randrange(1, 3))]})
+                        grp = [self.gen_member(depth, 'g') for _ in range(r.randrange(1, 3))]
+                        if 'group_zero_width' in self.o.avoid:
+                            for gm in grp:
+                                if gm['opt'] is None and self.maybe_zero_width(gm['t']):
+                                    gm['t'] = {'k': 'BOOLEAN'}
+                        ext.append({'group': grp})
                     else:
                         ext.append({'member': self.gen_member(depth, 'a', in_ext=True)})
             return {'k': k, 'root': root, 'ext': ext}
@@ -207,9 +230,32 @@ class Gen(object):
             if rt['k'] in ('BOOLEAN', 'INTEGER', 'ENUMERATED', 'OCTET STRING', 'BIT STRING', 'STRING') and \
                     not (rt['k'] == 'STRING' and rt['sk'] not in KM_KINDS + ['UTF8String']):
                 v = self.gen_value(t, simple=True)
-                if self.default_renderable(rt, v):
+                if rt['k'] == 'STRING' and 'numeric_string_default' in self.o.avoid and looks_numeric(v):
+                    v = None
+                if prefix == 'g' and rt['k'] in ('BIT STRING', 'OCTET STRING') and 'group_default_strings' in self.o.avoid:
+                    v = None
+                if t['k'] == 'REF' and rt['k'] == 'BOOLEAN' and 'ref_bool_default' in self.o.avoid:
+                    v = None
+                if v is not None and self.default_renderable(rt, v):
                     m['opt'] = ('default', v)
         return m
+
+    def maybe_zero_width(self, t):
+        rt = self.resolve(t)
+        k = rt['k']
+        if k == 'NULL':
+            return True
+        if k == 'INTEGER':
+            c = rt['c']
+            return c is not None and c['lo'] is not None and c['lo'] == c['hi']
+        if k in ('OCTET STRING', 'BIT STRING', 'STRING', 'SEQUENCE OF', 'SET OF'):
+            s = rt['size']
+            return s is not None and (s['hi'] == 0 or (k in ('SEQUENCE OF', 'SET OF') and s['lo'] == s['hi']))
+        if k == 'ENUMERATED':
+            return len(rt['root']) == 1
+        if k in ('SEQUENCE', 'SET', 'CHOICE'):
+            return True      # may be zero width depending on members: be conservative
+        return False
 
     def default_renderable(self, rt, v):
         if rt['k'] == 'STRING':
@@ -284,14 +330,14 @@ class Gen(object):
         cands = [x for x in cands if lo <= x <= hi]
         return r.choice(cands) if r.random() < .7 else r.randrange(lo, hi + 1)
 
-    def gen_len(self, size, cap=12):
+    def gen_len(self, size, cap=12, kind=None):
         r = self.rng
         if size is None:
             if self.o.big and r.random() < .05:
                 return r.choice([127, 128, 129, 16383, 16384, 16385, 32768, 49152, 65535, 65536, 70000])
             return r.choice([0, 1, 2, 3, 5, cap])
         lo, hi = size['lo'], size['hi']
-        if size['ext'] and r.random() < .25:
+        if size['ext'] and r.random() < .25 and not (kind and kind + '_ext_outside' in self.o.avoid):
             return r.choice([x for x in [lo - 1, hi + 1, hi + 3] if x >= 0])
         if hi is None:
             return lo + r.choice([0, 1, 2, cap])
@@ -316,7 +362,7 @@ class Gen(object):
             n = self.gen_len(t['size'])
             return bytes(r.randrange(256) for _ in range(n))
         if k == 'BIT STRING':
-            n = self.gen_len(t['size'])
+            n = self.gen_len(t['size'], kind='bits')
             if t.get('named'):
                 # named-bit values: any bits, possibly with trailing zeros
                 if t['size'] is None:
@@ -329,7 +375,7 @@ class Gen(object):
                 b[-1] = 0
             return (bytes(b), n)
         if k == 'STRING':
-            n = self.gen_len(t['size'])
+            n = self.gen_len(t['size'], kind='str')
             if t['alpha']:
                 pool = t['alpha']
             elif t['sk'] in ALPHABETS:
@@ -342,6 +388,8 @@ class Gen(object):
                 pool = [chr(c) for c in (65, 97, 48, 0xe5, 0x3b1, 0x4e2d, 0x1f600, 0x7f, 0x80, 0x7ff, 0x800, 0xffff, 0x10000)]
                 if simple:
                     pool = ['a', 'B', '0', ' ']
+            if self.o.xml_safe:
+                pool = [c for c in pool if 0x20 <= ord(c) and ord(c) not in (0x7f, 0xfffe, 0xffff)] or ['a']
             return ''.join(r.choice(pool) for _ in range(n))
         if k == 'OBJECT IDENTIFIER':
             a0 = r.choice([0, 1, 2])
@@ -353,14 +401,16 @@ class Gen(object):
             for m in t['root']:
                 self.fill_member(d, m, depth)
             if t['ext'] is not None:
-                for a in t['ext']:
+                # a legal abstract value knows a prefix of the additions (its version): mandatory
+                # members of known additions are present, everything after the cut is absent
+                cut = r.randrange(0, len(t['ext']) + 1)
+                for a in t['ext'][:cut]:
                     if 'group' in a:
-                        if r.random() < .6:
+                        if any(m['opt'] is None for m in a['group']) or r.random() < .7:
                             for m in a['group']:
-                                self.fill_member(d, m, depth, force=True)
+                                self.fill_member(d, m, depth)
                     else:
-                        if r.random() < .6:
-                            self.fill_member(d, a['member'], depth, force=True)
+                        self.fill_member(d, a['member'], depth)
             return d
         if k in ('SEQUENCE OF', 'SET OF'):
             n = self.gen_len(t['size'], cap=4 if depth > 0 else 6)
@@ -375,7 +425,7 @@ class Gen(object):
             return (m['name'], self.gen_value(m['t'], simple, depth + 1))
         raise AssertionError(k)
 
-    def fill_member(self, d, m, depth, force=False):
+    def fill_member(self, d, m, depth):
         r = self.rng
         if m['opt'] == 'optional':
             if r.random() < (.5 if depth < 3 else .1):
@@ -553,7 +603,7 @@ def coq_value(rt_of, t, v):
     if k in ('SEQUENCE', 'SET'):
         ms = all_members(t)
         byname = {m['name']: m for m in ms}
-        return C('VSeq', [(n, coq_value(rt_of, byname[n]['t'], x)) for n, x in v.items() if n in byname])
+        return C('VSeq', [(m['name'], coq_value(rt_of, m['t'], v[m['name']])) for m in ms if m['name'] in v])
     if k in ('SEQUENCE OF', 'SET OF'):
         return C('VList', [coq_value(rt_of, t['elem'], x) for x in v])
     if k == 'CHOICE':
